@@ -38,6 +38,15 @@ Theorem C04_dict_roundtrip_filter_none : forall g c u cl fs,
 Proof. exact dict_roundtrip_filter_none. Qed.
 Print Assumptions C04_dict_roundtrip_filter_none.
 
+(* list-of-models documents: a list of instances of one class encodes to a JSON array and decodes,
+   with clazz = list[cls], to the same list (either factory) *)
+Theorem C04_dict_roundtrip_list : forall g fac c u cl l,
+  (forall o, In o l -> exists fs, o = VObj cl fs /\ d1_value g fac c u (S (vdepth o)) o = true) ->
+  exists j, encode g fac false c u (VList false l) = Ok j
+            /\ decode g c u cl true j = Ok (VList false l).
+Proof. exact dict_roundtrip_list. Qed.
+Print Assumptions C04_dict_roundtrip_list.
+
 (* the encoded form is made of null / bool / int / float / str / list / dict-with-str-keys only:
    that is the model's output type; on the implementation side the exporter refuses any other
    leaf, and json.dumps(encode(o)) is run on every generated case *)
